@@ -752,12 +752,24 @@ func castArr(opts *options, v value) (arr []value, single bool, err Error) {
 		return sub.c.fields.array(), false, nil
 	}
 	if ref, ok := v.(*cfgDynamic); ok {
-		unrefed, err := ref.getValue(opts)
-		if err != nil {
-			// the error is about the setting itself: report its own path and
-			// source (the enclosing configuration may have been created
-			// without metadata)
-			return nil, false, raisePathErr(ErrMissing, ref.meta(), err.Error(), ref.ctx.path("."))
+		// follow a chain of references to the value it ends at
+		seen := map[*cfgDynamic]bool{}
+		var unrefed value = ref
+		for {
+			next, ok := unrefed.(*cfgDynamic)
+			if !ok || seen[next] {
+				break
+			}
+			seen[next] = true
+
+			var err error
+			unrefed, err = next.getValue(opts)
+			if err != nil {
+				// the error is about the setting itself: report its own path and
+				// source (the enclosing configuration may have been created
+				// without metadata)
+				return nil, false, raisePathErr(ErrMissing, ref.meta(), err.Error(), ref.ctx.path("."))
+			}
 		}
 
 		if sub, ok := unrefed.(cfgSub); ok {
